@@ -71,6 +71,8 @@ func zzvC03Scenarios() []zzvScn {
 		{deep: true, name: "S10-open-fails-adds", ctrNames: []string{"a"}, threads: [][]zzvOp{{A(0, 1)}, {A(0, 2)}, {zzvOp{kind: "openfail"}}}},
 		{name: "S12-two-Open-calls-and-add", ctrNames: []string{"a"}, useDefault: true, threads: [][]zzvOp{{A(0, 1)}, {zzvOp{kind: "openapi"}}, {zzvOp{kind: "openapi"}, A(0, 2)}}},
 		{name: "S13-stackcounter-inc-inc-open", ctrNames: []string{}, useDefault: true, stack: true, threads: [][]zzvOp{{zzvOp{kind: "stackinc"}}, {zzvOp{kind: "stackinc"}}, {zzvOp{kind: "openapi"}}}},
+		// two goroutines use a counter for the first time at once (both in register), one of them then grows the file and adds again
+		{deep: true, name: "S14-first-use-twice-then-growth", ctrNames: []string{"a", zzvBig('b')}, preOpen: true, fill: 3, threads: [][]zzvOp{{A(0, 8)}, {A(0, 1), A(1, 2), A(0, 4)}}},
 		{name: "S11-add-open-then-rotate", ctrNames: []string{"a", "b"}, threads: [][]zzvOp{{A(0, 1), A(1, 2)}, {open, rot}}},
 	}
 }
